@@ -159,7 +159,11 @@ def run_property(repo: Repo, pid: str, tier: str, seed: int, verbose: bool = Fal
           f"{len(violations)} unlisted violations; rules={','.join(rules_run)}; evidence={ev}")
     for o in errors:
         print(f"ANALYSIS-ERROR rule {o.rule} cannot decide its obligations for {pid}: {o.msg}")
-    if errors:
+    # every obligation is decided on the confirmed tree: one that cannot be decided any more is reported, not passed over
+    undecided = [o for o in obs if o.status == "unanalysed"]
+    for o in undecided:
+        print(f"ANALYSIS-INCOMPLETE property={pid} undecided obligation (the construct is outside the idioms this rule reads): {o.text()}")
+    if errors or undecided:
         return 1 if violations else 2
     if st_fail:
         print(f"ANALYSIS-ERROR self-test of the rules serving {pid} failed: {st['failed']}")
